@@ -263,6 +263,10 @@ func (f *Font) Widths() []float64 {
 		}
 		return widths
 	case *glyf.Outlines:
+		if outlines.Widths == nil {
+			// fonts without "hmtx" table have no width information
+			return nil
+		}
 		for i := range widths {
 			widths[i] = float64(outlines.Widths[i])
 		}
